@@ -424,11 +424,40 @@ Proof. reflexivity. Qed.
 Lemma seed_falsy_root : find_in_cache s_abcd true 1 0 true 1 = Found 1 /\ find_in_cache s_abcd true 1 0 true 0 = NotFound.
 Proof. split; reflexivity. Qed.
 
-(* the same diamond: an object in the identity map as a K1-typed seed is met again through a K2-typed reference: class change error *)
-Lemma refine_sibling_types : refine s_abcd 1 2 = None /\ family s_abcd 1 3 /\ family s_abcd 2 3.
+(* two references, typed c1 and c2, to one stored object of class real (both are real or ancestors of it): the placeholder created for the
+   first is met again through the second without an error, and what stays in the identity map is still a class at or above the stored one,
+   so loading the row refines it to real (refine_exact) *)
+Lemma refine_some s : valid s = true -> forall cur d c, refine s cur d = Some c -> (c = cur /\ (cur = d \/ anc s d cur)) \/ (c = d /\ anc s cur d).
 Proof.
-  repeat split; try reflexivity; right; apply (all_bases_anc s_abcd s_abcd_valid); cbn; auto.
+  intros Hv cur d c. unfold refine. destruct (cur =? d) eqn:E1.
+  - apply Nat.eqb_eq in E1. intros H. inversion H; subst. left. split; [reflexivity | now left].
+  - destruct (nmem d (all_bases s cur)) eqn:E2.
+    + intros H. inversion H; subst. left. split; [reflexivity|]. right. apply nmem_In in E2. now apply all_bases_anc in E2.
+    + destruct (nmem cur (all_bases s d)) eqn:E3; [|discriminate]. intros H. inversion H; subst. right. split; [reflexivity|].
+      apply nmem_In in E3. now apply all_bases_anc in E3.
 Qed.
+
+Lemma meet_again_ok s : valid s = true -> forall c1 c2 real, family s c1 real -> family s c2 real ->
+  exists c, meet_again s c1 true c2 = Some c /\ family s c real.
+Proof.
+  intros Hv c1 c2 real H1 H2. unfold meet_again.
+  destruct (refine s c1 c2) as [c|] eqn:Er.
+  - exists c. split; [reflexivity|]. destruct (refine_some s Hv _ _ _ Er) as [[-> _]|[-> _]]; assumption.
+  - (* unrelated declared types: the stored class is a common subclass *)
+    assert (Hc : common_subclass s c1 c2 = true).
+    { unfold refine in Er. destruct (c1 =? c2) eqn:E1; [discriminate|]. apply Nat.eqb_neq in E1.
+      destruct (nmem c2 (all_bases s c1)) eqn:E2; [discriminate|]. destruct (nmem c1 (all_bases s c2)) eqn:E3; [discriminate|].
+      assert (N2 : ~ anc s c2 c1) by (intros A; apply all_bases_anc, nmem_In in A; [congruence | assumption]).
+      assert (N3 : ~ anc s c1 c2) by (intros A; apply all_bases_anc, nmem_In in A; [congruence | assumption]).
+      destruct H1 as [->|A1]; [destruct H2 as [->|A2]; [congruence | contradiction]|].
+      destruct H2 as [->|A2]; [contradiction|].
+      unfold common_subclass. apply existsb_exists. exists real. split; [now apply subclasses_anc | apply nmem_In; now apply subclasses_anc]. }
+    rewrite Hc. cbn [andb]. exists c1. now split.
+Qed.
+
+(* without the placeholder status (a loaded object) two unrelated declared types remain a class change error *)
+Lemma meet_again_loaded_unrelated : meet_again s_abcd 1 false 2 = None.
+Proof. reflexivity. Qed.
 
 (* ------------------------------------------------------------------ reading a reference attribute *)
 Lemma attr_get_refines s : valid s = true -> forall cur seed real, family s cur real -> (seed = false -> cur = real) ->
@@ -451,9 +480,8 @@ Proof. intros Hv cur real Hf. rewrite attr_get_source_guarded. now apply attr_ge
 Lemma collection_item_refined s : valid s = true -> forall cur real, family s cur real -> collection_item_class s cur real = real.
 Proof. intros Hv cur real Hf. unfold collection_item_class. now rewrite (refine_exact s Hv cur real Hf). Qed.
 
-(* witness: the placeholder of a K3 object typed K0 is handed out as K0 after unpickling *)
-Lemma unpickled_ref_unrefined : unpickled_ref_class 0 3 <> 3.
-Proof. discriminate. Qed.
+Lemma unpickled_ref_refined s : valid s = true -> forall cur real, family s cur real -> unpickled_ref_class s cur real = real.
+Proof. intros Hv cur real Hf. unfold unpickled_ref_class. now rewrite (refine_exact s Hv cur real Hf). Qed.
 
 (* ------------------------------------------------------------------ conditions on subclass attributes in a query over a base class *)
 Lemma family_trans s a b c : family s a b -> family s b c -> family s a c.
